@@ -41,3 +41,4 @@ CFG = {'level': 'exploration',
  'assumptions': ['package time converts between Unix seconds and the proleptic Gregorian calendar correctly',
                  'math/big and regexp are correct',
                  'ref/refsemver transcribes the documented version grammar and SemVer precedence correctly']}
+CFG['level_text'] += ' Build metadata of bases is generated from the grammar (identifiers over [0-9A-Za-z-], dots), not only from a list.'
